@@ -443,9 +443,96 @@ def handleOpt (args : List String) : Option String :=
         ++ s!"hist={showStrList histStr} steps={showStrList stepStr} back={backStr}")
   | _ => none
 
+/-! ### set-up: `GridBase.add_clamp`, `GridBase.add_link` (round 5)
+
+Points are exact images of the float positions; `f.norm(a - b) < TOL` is modelled by the squared
+comparison `|a - b|² < TOL²` (`tol2` is TOL², handed in by the harness). -/
+
+/-- `f.norm(p - q) < TOL` -/
+def near (tol2 : Rat) (p q : V3) : Bool := decide (V3.norm2 (p - q) < tol2)
+
+/-- `for junction in self.junctions: if f.norm(junction.point - position) < TOL: …; return` —
+    the first junction (lowest index) that is close enough -/
+def findFirstFrom (tol2 : Rat) (pos : V3) : List V3 → Nat → Option Nat
+  | [], _ => none
+  | q :: qs, i => if near tol2 q pos then some i else findFirstFrom tol2 pos qs (i + 1)
+
+def findFirst (tol2 : Rat) (pts : List V3) (pos : V3) : Option Nat := findFirstFrom tol2 pos pts 0
+
+/-- the loop of `add_link`: a junction close to the leader sets `leader_index` (and `continue`s),
+    otherwise one close to the follower sets `follower_index`; no `break`, the last match stays -/
+def scanLink (tol2 : Rat) (leader follower : V3) : List V3 → Nat → Option Nat × Option Nat → Option Nat × Option Nat
+  | [], _, acc => acc
+  | q :: qs, i, acc =>
+      if near tol2 leader q then scanLink tol2 leader follower qs (i + 1) (some i, acc.2)
+      else if near tol2 follower q then scanLink tol2 leader follower qs (i + 1) (acc.1, some i)
+      else scanLink tol2 leader follower qs (i + 1) acc
+
+inductive SetupErr where
+  | noJunction | clampExists | leaderNotFound | followerNotFound | sameJunction
+  deriving DecidableEq, Repr
+
+/-- what the grid has registered: `(junction, clamp)` pairs in the order of the `add_clamp` calls and
+    the `IndexedLink`s in the order of the `add_link` calls -/
+structure Reg where
+  clamps : List (Nat × Nat)
+  links : List Link
+  deriving DecidableEq, Repr
+
+/-- `GridBase.add_clamp` + `Junction.add_clamp`; an error leaves the registration as it was -/
+def addClamp (tol2 : Rat) (pts : List V3) (r : Reg) (cid : Nat) (pos : V3) : Reg × Option SetupErr :=
+  match findFirst tol2 pts pos with
+  | none => (r, some .noJunction)
+  | some i =>
+      if r.clamps.any (fun c => c.1 == i) then (r, some .clampExists)
+      else ({ r with clamps := r.clamps ++ [(i, cid)] }, none)
+
+/-- `GridBase.add_link`: all three validations come before the registration -/
+def addLink (tol2 : Rat) (pts : List V3) (r : Reg) (lid : Nat) (leader follower : V3) : Reg × Option SetupErr :=
+  match scanLink tol2 leader follower pts 0 (none, none) with
+  | (none, _) => (r, some .leaderNotFound)
+  | (some _, none) => (r, some .followerNotFound)
+  | (some li, some fi) =>
+      if li = fi then (r, some .sameJunction)
+      else ({ r with links := r.links ++ [⟨li, fi, lid⟩] }, none)
+
+/-- `GridBase.clamps` walks the junctions in index order: the junction list of the model's `Cfg` -/
+def clampIdxOf (r : Reg) (n : Nat) : List Nat := (List.range n).filter (fun i => r.clamps.any (fun c => c.1 == i))
+
+def SetupErr.show : SetupErr → String
+  | .noJunction => "NoJunctionError" | .clampExists => "ClampExistsError"
+  | .leaderNotFound => "InvalidLinkError:leader" | .followerNotFound => "InvalidLinkError:follower"
+  | .sameJunction => "InvalidLinkError:same"
+
+/-- `c13.setup tol2 p0;p1;… op;op;…` with `op = clamp:<id>:<pos>` or `link:<id>:<leader>:<follower>`
+    → after every op `ok|<error> C[j:id,…] L[leader:follower:id,…]`, joined by `|` -/
+def handleSetup (args : List String) : Option String :=
+  match args with
+  | [tol2, pts, ops] => do
+      let tol2 ← parseRat? tol2
+      let pts ← (pts.splitOn ";").mapM parseV3?
+      let showReg (r : Reg) (e : Option SetupErr) : String :=
+        ((e.map SetupErr.show).getD "ok") ++ " C"
+          ++ showStrList (r.clamps.map (fun c => s!"{c.1}:{c.2}")) ++ " L"
+          ++ showStrList (r.links.map (fun l => s!"{l.leader}:{l.follower}:{l.lid}"))
+          ++ " I" ++ showNatList (clampIdxOf r pts.length)
+      let step (acc : Reg × List String) (op : String) : Option (Reg × List String) :=
+        match op.splitOn ":" with
+        | ["clamp", cid, pos] => do
+            let x := addClamp tol2 pts acc.1 (← parseNat? cid) (← parseV3? pos)
+            some (x.1, acc.2 ++ [showReg x.1 x.2])
+        | ["link", lid, a, b] => do
+            let x := addLink tol2 pts acc.1 (← parseNat? lid) (← parseV3? a) (← parseV3? b)
+            some (x.1, acc.2 ++ [showReg x.1 x.2])
+        | _ => none
+      let r ← (splitNonEmpty ops ";").foldlM step (({ clamps := [], links := [] } : Reg), [])
+      some ("|".intercalate r.2 |>.replace " " "_")
+  | _ => none
+
 def handle (op : String) (args : List String) : Option String :=
   match op with
   | "c13.opt" => handleOpt args
+  | "c13.setup" => handleSetup args
   | _ => none
 
 end CBV.C13
